@@ -116,10 +116,15 @@ struct ServiceM {
   props: Map<String, Value>,
 }
 impl ServiceM {
-  fn render(&self, cx: &Cx) -> Value {
+  /// `collapse_ty`: a one-element `type` array is written as a bare string (the library's normal form).
+  fn render(&self, cx: &Cx, collapse_ty: bool) -> Value {
     let mut m = Map::new();
     m.insert("id".into(), Value::String(self.id.render(cx)));
-    m.insert("type".into(), self.ty.clone());
+    let ty = match &self.ty {
+      Value::Array(a) if collapse_ty && a.len() == 1 => a[0].clone(),
+      other => other.clone(),
+    };
+    m.insert("type".into(), ty);
     m.insert("serviceEndpoint".into(), self.endpoint.clone());
     for (k, v) in &self.props {
       m.insert(k.clone(), v.clone());
@@ -141,12 +146,19 @@ struct DocM {
   services: Vec<ServiceM>,
   props: Map<String, Value>,
   meta: Map<String, Value>,
+  /// Whether the library holds a one-element service `type` array as a bare string. Observed once
+  /// per document when the set-up is compared with the model (default: normal form).
+  svc_collapse: std::cell::Cell<bool>,
 }
 
 impl DocM {
   /// JSON of the `IotaDocument` this model denotes when its self DID is `me`.
   /// `strip` removes the ledger address fields; `collapse` writes a single controller as a string.
   fn render(&self, me: &str, strip: bool, collapse: bool) -> Value {
+    self.render4(me, strip, collapse, self.svc_collapse.get())
+  }
+
+  fn render4(&self, me: &str, strip: bool, collapse: bool, collapse_svc: bool) -> Value {
     let cx = Cx { me, foreign: &self.foreign };
     let mut doc = Map::new();
     doc.insert("id".into(), Value::String(me.to_string()));
@@ -167,7 +179,7 @@ impl DocM {
       }
     }
     if !self.services.is_empty() {
-      doc.insert("service".into(), Value::Array(self.services.iter().map(|s| s.render(&cx)).collect()));
+      doc.insert("service".into(), Value::Array(self.services.iter().map(|s| s.render(&cx, collapse_svc)).collect()));
     }
     for (k, v) in &self.props {
       doc.insert(k.clone(), v.clone());
@@ -590,7 +602,7 @@ fn gen_doc(rng: &mut Rng, big: bool) -> DocM {
     meta.insert(k, v);
   }
 
-  DocM { me, foreign, controllers, ctrl_array1, aka, vm, rel, services, props, meta }
+  DocM { me, foreign, controllers, ctrl_array1, aka, vm, rel, services, props, meta, svc_collapse: std::cell::Cell::new(true) }
 }
 
 /// Pads the model so that its packed payload is exactly `target` bytes long.
@@ -777,7 +789,7 @@ fn build_with_builder(m: &DocM, me: &str) -> IotaDocument {
     b = b.capability_invocation(mref(x));
   }
   for s in &m.services {
-    let svc: Service = serde_json::from_value(s.render(&cx)).expect("model service");
+    let svc: Service = serde_json::from_value(s.render(&cx, false)).expect("model service");
     b = b.service(svc);
   }
   let core = b.build().expect("model document (builder)");
@@ -818,7 +830,8 @@ impl H {
   fn run_doc(&mut self, rng: &mut Rng, m: &DocM, n_targets: usize, exhaustive_header: bool, via_text: bool, idx: u64) {
     self.rep.eval();
     self.rep.inc("documents");
-    let orig_json = m.render(&m.me, false, false);
+    m.svc_collapse.set(true);
+    let orig_json = m.render4(&m.me, false, false, false);
     let exp_len = m.packed_len();
     let doc_for_case = if exp_len <= 6000 { orig_json.clone() } else { json!(format!("<omitted, packed payload {} bytes; regenerate with the seed>", exp_len)) };
     let how = if m.ctrl_array1 { "builder, then JSON text with the controller written as a one-element array" } else if via_text { "builder, then re-read from its JSON text" } else { "builder" };
@@ -858,9 +871,39 @@ impl H {
     let method_props = m.vm.iter().any(|x| !x.props.is_empty()) || m.rel.iter().any(|r| r.iter().any(|x| matches!(x, RefM::Embed(mm) if !mm.props.is_empty())));
     let Some(ser) = self.lib("serialize", &case, || serde_json::to_value(&doc)) else { return };
     let ser = ser.expect("serialising a document");
-    if let Some(d) = first_diff(&ser, &orig_json, "") {
-      panic!("harness model and library serialisation disagree at {} — model {} — library {}", d, orig_json, ser);
+    // What the library holds serialises in its normal form: a single controller and a one-element
+    // service `type` are bare strings even when the input JSON had one-element arrays. A library that
+    // keeps the arrays it was given is tolerated here (the round-trip checks below judge it).
+    let svc_array1 = m.services.iter().any(|x| matches!(&x.ty, Value::Array(a) if a.len() == 1));
+    if m.ctrl_array1 {
+      self.rep.inc("one_element_controller_array_inputs");
     }
+    if svc_array1 {
+      self.rep.inc("one_element_service_type_array_inputs");
+    }
+    let mut held = None;
+    for (cc, cs) in [(true, true), (true, false), (false, true), (false, false)] {
+      if ser == m.render4(&m.me, false, cc, cs) {
+        held = Some((cc, cs));
+        break;
+      }
+    }
+    match held {
+      Some((cc, cs)) => {
+        m.svc_collapse.set(cs);
+        if m.ctrl_array1 && !cc {
+          self.rep.inc("one_element_controller_array_kept_by_from_json");
+        }
+        if svc_array1 && !cs {
+          self.rep.inc("one_element_service_type_array_kept");
+        }
+      }
+      None => {
+        let want = m.render4(&m.me, false, true, true);
+        panic!("harness model and library serialisation disagree at {} — model {} — library {}", first_diff(&ser, &want, "").unwrap_or_default(), want, ser);
+      }
+    }
+    let exp_len = m.packed_len();
     let me_did = match self.lib("IotaDID::parse", &case, || IotaDID::parse(&m.me)) {
       Some(Ok(d)) if d.as_str() == m.me => d,
       _ => panic!("self DID {} not accepted verbatim", m.me),
@@ -898,11 +941,6 @@ impl H {
         }
         a.clone()
       }
-      _ if m.ctrl_array1 && exp_len + 2 > MAX_PAYLOAD => {
-        // latitude: a library that keeps the one-element controller array packs two bytes more
-        self.rep.inc("limit_ambiguous_one_element_array");
-        return;
-      }
       _ => {
         let e = [&p1, &p2, &p3].iter().filter_map(|p| p.as_ref().err().map(|e| e.to_string())).next().unwrap_or_default();
         self.rep.violation("pack-rejects-fitting-document", &format!("payload of {} bytes (<= 65535) but pack failed: {}", exp_len, e), case.clone());
@@ -910,8 +948,6 @@ impl H {
       }
     };
     self.rep.inc("pack_ok");
-    // latitude (see above): `"controller":["x"]` kept as an array is two bytes longer
-    let exp_len = if m.ctrl_array1 && bytes.len() == exp_len + 2 + 7 { exp_len + 2 } else { exp_len };
     if exp_len + 64 > MAX_PAYLOAD {
       self.rep.distinct("nontrivial", &format!("near-limit|{}", MAX_PAYLOAD - exp_len));
     }
@@ -943,8 +979,7 @@ impl H {
     match serde_json::from_slice::<Value>(&bytes[7..]) {
       Ok(payload) => {
         let want = m.render(PLACEHOLDER, true, true);
-        let alt = m.render(PLACEHOLDER, true, false);
-        if payload != want && payload != alt {
+        if payload != want {
           let d = first_diff(&payload, &want, "").unwrap_or_default();
           self.rep.violation(
             &format!("pack-payload-mismatch:{}", diff_class(&d)),
@@ -975,7 +1010,6 @@ impl H {
     // ---- same DID
     let (n_me, n_foreign) = m.ref_counts();
     let same_want = m.render(&m.me, true, true);
-    let same_alt = m.render(&m.me, true, false);
     self.rep.inc("oracle_checks");
     if let Some(r) = self.lib("into_iota_document", &case, || smd.clone().into_iota_document(&me_did)) {
       match r {
@@ -986,7 +1020,7 @@ impl H {
           want_doc.metadata.state_controller_address = None;
           let j2 = self.lib("serialize", &case, || serde_json::to_value(&d2)).map(|r| r.expect("serialise"));
           if let Some(j2) = j2 {
-            if j2 != same_want && j2 != same_alt {
+            if j2 != same_want {
               let d = first_diff(&j2, &same_want, "").unwrap_or_default();
               let plain = catch(|| IotaDocument::from_json(&serde_json::to_string(&doc).expect("serialise")).map(|x| x == doc)).ok().and_then(|r| r.ok()).unwrap_or(false);
               self.rep.violation(
@@ -1003,7 +1037,7 @@ impl H {
                   "unpack(pack(doc)) serialises exactly like doc but compares unequal, and so does IotaDocument::from_json(doc.to_json()): a verification method carrying custom properties is re-read with MethodData::Custom(<one of its properties>) and its real key material moved into `properties`",
                   case.clone(),
                 );
-              } else if m.ctrl_array1 && j2 == same_want {
+              } else if m.ctrl_array1 {
                 self.rep.violation(
                   "roundtrip-unequal:one-element-controller-array-becomes-single-value",
                   &format!("document with \"controller\":[\"{}\"] comes back with \"controller\":\"…\" and compares unequal (same controller set)", Cx { me: &m.me, foreign: &m.foreign }.did(m.controllers[0])),
@@ -1049,10 +1083,9 @@ impl H {
         }
       };
       let want = m.render(&t.expect, true, true);
-      let alt = m.render(&t.expect, true, false);
       let Some(j3) = self.lib("serialize", &tcase, || serde_json::to_value(&d3)) else { continue };
       let j3 = j3.expect("serialise");
-      if j3 != want && j3 != alt {
+      if j3 != want {
         let d = first_diff(&j3, &want, "").unwrap_or_default();
         self.rep.violation(
           &format!("rebase-mismatch:{}", diff_class(&d)),
@@ -1068,9 +1101,6 @@ impl H {
           w.metadata.state_controller_address = None;
           if !plain_ok {
             self.rep.inc("rebase_eq_skipped_plain_json_lossy");
-          } else if m.ctrl_array1 && j3 != want {
-            // the one-element array form was kept (allowed); the builder cannot express it
-            self.rep.inc("rebase_eq_skipped_array_form");
           } else if w != d3 {
             self.rep.violation("rebase-unequal:same-json", "rebased document serialises as expected but `==` with the expected document is false", tcase.clone());
             continue;
@@ -1230,6 +1260,7 @@ fn fixed_docs() -> Vec<DocM> {
     services: vec![],
     props: Map::new(),
     meta: Map::new(),
+    svc_collapse: std::cell::Cell::new(true),
   };
   let url = |did: D, frag: &str| UrlM { did, pq: String::new(), frag: frag.to_string() };
   let method = |did: D, frag: &str, ctrl: D| MethodM {
